@@ -35,3 +35,38 @@ Theorem C17_status_error_class : forall s,
   (s < 400 \/ 600 <= s -> status_error s = InternalError).
 Proof. exact status_error_class. Qed.
 Print Assumptions C17_status_error_class.
+
+From Coq Require Import Ascii.
+From RG Require Import Pure.Header Pure.Origin Proofs.HeaderProofs Proofs.OriginProofs.
+
+(* Whatever header names, in whatever letter case, a service puts in its meta: after canonicalisation and merge the
+   response's value for each protected name (Content-Type, Access-Control-Allow-Origin,
+   Access-Control-Allow-Credentials, Sec-Websocket-Extensions, Sec-Websocket-Protocol) is untouched. *)
+Theorem C17_protected_never_replaced : forall resp meta k,
+  is_protected k = true -> hget k (apply_meta resp meta) = hget k resp.
+Proof. exact protected_never_replaced. Qed.
+Print Assumptions C17_protected_never_replaced.
+
+(* Every key the merge adds is canonical and unprotected: no second spelling ("content-type") can sneak in. *)
+Theorem C17_merged_keys_canonical : forall resp meta k v,
+  In (k, v) (apply_meta resp meta) -> (exists v', In (k, v') resp) \/ (canon k = k /\ is_protected k = false).
+Proof. exact merged_keys_canonical. Qed.
+Print Assumptions C17_merged_keys_canonical.
+
+(* Set-Cookie values accumulate. *)
+Theorem C17_set_cookie_accumulates : forall resp b,
+  NoDup (map fst b) ->
+  hget set_cookie (merge resp b) =
+    match hget set_cookie b with
+    | Some v => Some ((match hget set_cookie resp with Some w => w | None => [] end) ++ v)
+    | None => hget set_cookie resp
+    end.
+Proof. exact set_cookie_accumulates. Qed.
+Print Assumptions C17_set_cookie_accumulates.
+
+(* With a lower-cased allow-list (the configuration lower-cases it), an origin is admitted iff it equals a listed
+   origin ignoring ASCII case, for all byte strings. *)
+Theorem C17_origin_match_spec : forall os o, Forall is_lower os ->
+  (matches_origins os o = true <-> In (to_lower o) os).
+Proof. exact origin_match_spec. Qed.
+Print Assumptions C17_origin_match_spec.
